@@ -206,6 +206,10 @@ class Trans(py2coq.Expr):
             if not ok or tb not in (STR, BYTES):
                 raise Untranslatable("only x[0::2] / x[1::2] step slices")
             return "(py_slice_step2 %d %s)" % (sl.lower.value, base), tb
+        if isinstance(sl, ast.Slice) and sl.lower is None and sl.step is None and isinstance(sl.upper, ast.UnaryOp) \
+                and isinstance(sl.upper.op, ast.USub) and isinstance(sl.upper.operand, ast.Constant) \
+                and type(sl.upper.operand.value) is int and sl.upper.operand.value > 0 and tb == STR:
+            return "(py_slice_to_neg %d %s)" % (sl.upper.operand.value, base), STR     # C32/PyStr.v
         if isinstance(sl, ast.Slice):
             if sl.upper is not None or sl.step is not None or not (
                     isinstance(sl.lower, ast.Constant) and isinstance(sl.lower.value, int)
@@ -214,6 +218,9 @@ class Trans(py2coq.Expr):
             if tb != STR:
                 raise Untranslatable("slice of %r" % (tb,))
             return "(py_slice_from %d %s)" % (sl.lower.value, base), STR
+        if isinstance(sl, ast.Constant) and type(sl.value) is int and sl.value == 0 and tb == LIST(STR) \
+                and isinstance(n.value, ast.Call) and isinstance(n.value.func, ast.Attribute) and n.value.func.attr == "split":
+            return "(py_item0 %s)" % base, STR      # split(...)[0]: a split is never empty (C32/PyStr.v)
         k, tk = self.ex(sl, env, pre)
         if tb == CFG and tk == STR:
             return self.hoist(pre, "(dict_get %s %s)" % (base, k)), CFGVAL
@@ -239,6 +246,9 @@ class Trans(py2coq.Expr):
             if to == STR and m == "startswith" and len(n.args) == 1 and isinstance(n.args[0], ast.Constant) \
                     and isinstance(n.args[0].value, str):
                 return "(py_startswith %s %s)" % (obj, lit(n.args[0].value)), BOOL
+            if to == STR and m == "endswith" and len(n.args) == 1 and isinstance(n.args[0], ast.Constant) \
+                    and isinstance(n.args[0].value, str):
+                return "(py_endswith %s %s)" % (obj, lit(n.args[0].value)), BOOL     # C32/PyStr.v
             if to == BUF and m == "getvalue" and not n.args:
                 return obj, STR
             if to == STR and m == "join" and len(n.args) == 1 and isinstance(f.value, ast.Constant):
